@@ -224,7 +224,12 @@ func (r *Rng) ops(n int, mix string, twoSlots bool) []Op {
 		case 'r':
 			ops = append(ops, Op{K: "r", Slot: slot, A: r.relRef()})
 		case 'p':
-			ops = append(ops, r.spOp(slot))
+			if twoSlots && haveB && r.Chance(1, 6) {
+				// SetSearchParams with the other URL's list
+				ops = append(ops, Op{K: "A", Slot: slot})
+			} else {
+				ops = append(ops, r.spOp(slot))
+			}
 		case 'c':
 			ops = append(ops, Op{K: "c", Slot: slot})
 			haveB = true
